@@ -35,3 +35,22 @@ func VerifC06ConfigDump(s *DiscoveryServer, con *Connection, includeEds bool) er
 	_, err := s.connectionConfigDump(con, includeEds)
 	return err
 }
+
+// VerifC06NewDeltaConnection builds a bare delta connection around a proxy and a stream.
+func VerifC06NewDeltaConnection(proxy *model.Proxy, stream DeltaDiscoveryStream) *Connection {
+	c := newDeltaConnection("verif-c06", stream)
+	c.proxy = proxy
+	c.SetID(proxy.ID)
+	return c
+}
+
+// VerifC06ProcessDeltaRequest exposes processDeltaRequest.
+func VerifC06ProcessDeltaRequest(s *DiscoveryServer, req *discovery.DeltaDiscoveryRequest, con *Connection) error {
+	return s.processDeltaRequest(req, con)
+}
+
+// VerifC06ConfigDumpTypes exposes getConfigDumpByResourceType with a nil request (the body of
+// /debug/config_dump?proxyID=...&types=...).
+func VerifC06ConfigDumpTypes(s *DiscoveryServer, con *Connection, types []string) int {
+	return len(s.getConfigDumpByResourceType(con, nil, types))
+}
